@@ -23,14 +23,71 @@ func genMods(r *c.Rng) []ModSpec {
 	mods := make([]ModSpec, n)
 	// module 0: exporter of functions and a table
 	mods[0] = ModSpec{NFun: 2, NExp: 1, NPriv: r.Intn(2), NGlob: r.Intn(2), Size: 4}
+	// exported funcref globals: immutable (initialised with ref.func of an own function, rarely ref.null or the value of
+	// an imported immutable global) and mutable (ref.null or ref.func)
+	genExpG := func(i int, m *ModSpec, p int) {
+		if r.Intn(p) == 0 {
+			return
+		}
+		for k := 1 + r.Intn(2); k > 0; k-- {
+			if r.Intn(3) == 0 {
+				init := -1
+				if r.Intn(2) == 0 {
+					init = r.Intn(m.NFun)
+				}
+				m.ExpG = append(m.ExpG, [2]int{1, init})
+				continue
+			}
+			init := r.Intn(m.NFun)
+			switch x := r.Intn(10); {
+			case x == 0:
+				init = -1
+			case x < 3:
+				// the value of an imported immutable global, re-exported (a chain of exporters)
+				var imm []int
+				for q, p := range m.ImpG {
+					if mods[p[0]].ExpG[p[1]][0] == 0 {
+						imm = append(imm, q)
+					}
+				}
+				if len(imm) > 0 {
+					init = -2 - imm[r.Intn(len(imm))]
+				}
+			}
+			m.ExpG = append(m.ExpG, [2]int{0, init})
+		}
+	}
+	genExpG(0, &mods[0], 3)
 	for i := 1; i < n; i++ {
 		m := ModSpec{NFun: 1 + r.Intn(2), NPriv: r.Intn(2), NGlob: r.Intn(2), Size: 4}
+		// imported funcref globals of earlier modules
+		var gc [][2]int
+		for j := 0; j < i; j++ {
+			for e := range mods[j].ExpG {
+				gc = append(gc, [2]int{j, e})
+			}
+		}
+		if len(gc) > 0 && r.Intn(3) != 0 {
+			for k := 1 + r.Intn(2); k > 0; k-- {
+				m.ImpG = append(m.ImpG, gc[r.Intn(len(gc))])
+			}
+			// sometimes the globals are ALL the module imports: nothing else ties it to their exporters
+			m.GOnly = r.Intn(5) < 2
+		}
 		if r.Intn(4) == 0 {
 			m.NExp = 1
 		}
-		for k := r.Intn(3); k > 0; k-- {
+		for k := r.Intn(3); k > 0 && !m.GOnly; k-- {
 			j := r.Intn(i)
 			m.ImpF = append(m.ImpF, [2]int{j, mods[j].nImpRec() + r.Intn(mods[j].NFun)})
+		}
+		if m.GOnly {
+			genExpG(i, &m, 2)
+			if m.nTab() == 0 {
+				m.NPriv = 1
+			}
+			mods[i] = m
+			continue
 		}
 		if r.Intn(3) != 0 {
 			// import an exported table of an earlier module
@@ -46,21 +103,33 @@ func genMods(r *c.Rng) []ModSpec {
 		}
 		if r.Intn(2) == 0 {
 			j := r.Intn(i)
-			if mods[j].nHold() > 0 {
-				m.ImpS = append(m.ImpS, [2]int{j, r.Intn(mods[j].nHold())})
+			if mh := mutHolders(mods, j); len(mh) > 0 {
+				m.ImpS = append(m.ImpS, [2]int{j, mh[r.Intn(len(mh))]})
 			}
 		}
-		if m.nHold() == 0 {
+		if m.nOwnMut() == 0 {
 			m.NPriv = 1
 		}
+		genExpG(i, &m, 2)
 		mods[i] = m
 	}
 	genMem(r, mods)
 	for i := range mods {
 		m := &mods[i]
-		for k := r.Intn(3); k > 0 && m.nHold() > 0; k-- {
+		for k := r.Intn(3); k > 0 && m.nOwnMut() > 0; k-- {
 			rec := pickRec(r, m)
-			m.Elems = append(m.Elems, [3]int{r.Intn(m.nHold()), r.Intn(m.Size), rec})
+			m.Elems = append(m.Elems, [3]int{r.Intn(m.nOwnMut()), r.Intn(m.Size), rec})
+		}
+		// element items / private initialisers `global.get g` of imported immutable globals
+		if imm := immImpG(mods, i); len(imm) > 0 && m.nOwnMut() > 0 && r.Intn(3) != 0 {
+			for k := 1 + r.Intn(2); k > 0; k-- {
+				t := r.Intn(m.nOwnMut())
+				sl := r.Intn(m.Size)
+				if t >= m.nTab() {
+					sl = 0
+				}
+				m.GElems = append(m.GElems, [3]int{t, sl, imm[r.Intn(len(imm))]})
+			}
 		}
 		// a global initialiser is a single value: keep one entry per global, slot 0
 		seen := map[int]bool{}
@@ -86,6 +155,13 @@ func genMods(r *c.Rng) []ModSpec {
 				}
 			}
 			m.Elems = gl
+			var gg [][3]int
+			for _, e := range m.GElems {
+				if e[0] >= m.nTab() {
+					gg = append(gg, e)
+				}
+			}
+			m.GElems = gg
 		}
 	}
 	return mods
@@ -118,6 +194,9 @@ func genMem(r *c.Rng, mods []ModSpec) {
 	linked := false
 	for i := 1; i < n; i++ {
 		m := &mods[i]
+		if m.GOnly {
+			continue
+		}
 		var memSrc, globSrc []int
 		for j := 0; j < i; j++ {
 			if mods[j].hasMem() {
@@ -204,6 +283,21 @@ func generate(seed uint64, n int) {
 				return 4 // exists only after a table.grow
 			}
 			return r.Intn(4)
+		}
+		xcID := 0
+		// xc: n more unrelated modules are compiled, instantiated and closed on the same engine
+		xc := func(n int) {
+			if rtOpen && engOpen {
+				add("xc", n, xcID)
+				xcID += n
+			}
+		}
+		mutOf := func(m int) (int, bool) {
+			mh := mutHolders(mods, m)
+			if len(mh) == 0 {
+				return 0, false
+			}
+			return mh[r.Intn(len(mh))], true
 		}
 		// storeRef: ref.func f of module m into its holder t, through table.set/global.set, table.fill or table.grow
 		storeRef := func(m, t, k, f int) (slotUsed int) {
@@ -298,12 +392,15 @@ func generate(seed uint64, n int) {
 					add("ind", m, r.Intn(ms.nHold()), slot())
 				}
 			case k < 7:
-				if ms.nHold() > 0 {
-					storeRef(m, r.Intn(ms.nHold()), slot(), pickRec(r, ms))
+				if t, ok := mutOf(m); ok {
+					storeRef(m, t, slot(), pickRec(r, ms))
 				}
 			case k < 8:
-				if ms.nHold() > 0 {
-					ts, td := r.Intn(ms.nHold()), r.Intn(ms.nHold())
+				if td, ok := mutOf(m); ok {
+					ts := r.Intn(ms.nHold())
+					if ng := ms.nHold() - ms.nTab(); ng > 0 && r.Intn(3) == 0 {
+						ts = ms.nTab() + r.Intn(ng) // read a global
+					}
 					if ts < ms.nTab() && td < ms.nTab() && r.Intn(2) == 0 {
 						add("cpc", m, ts, slot(), td, slot())
 					} else {
@@ -311,10 +408,13 @@ func generate(seed uint64, n int) {
 					}
 				}
 			case k < 9:
-				if len(ms.ImpS) > 0 {
+				if ng := ms.nHold() - ms.nTab(); len(ms.ImpS) > 0 && ng > 0 && r.Intn(2) == 0 {
+					// the value of a global handed on as a parameter
+					add("gp", m, ms.nTab()+r.Intn(ng), r.Intn(len(ms.ImpS)), slot())
+				} else if len(ms.ImpS) > 0 {
 					add("pass", m, pickRec(r, ms), r.Intn(len(ms.ImpS)), slot())
-				} else if ms.nHold() > 0 {
-					add("clr", m, r.Intn(ms.nHold()), slot())
+				} else if t, ok := mutOf(m); ok {
+					add("clr", m, t, slot())
 				}
 			default:
 				if ms.nHold() > 0 {
@@ -573,6 +673,68 @@ func generate(seed uint64, n int) {
 		if r.Intn(4) != 0 {
 			memScenario()
 		}
+		// globalScenario: an imported funcref global outlives its exporter. The importer reads it (call_indirect through
+		// it), stores the value on (own table / own mutable global / another instance's holder by parameter); the exporter
+		// and its compiled module are closed and dropped; more modules are compiled on the engine; collect; the importer
+		// uses the global and the copies.
+		globalScenario := func() bool {
+			var ps [][2]int
+			for m := range mods {
+				for q := range mods[m].ImpG {
+					ps = append(ps, [2]int{m, q})
+					if mods[m].GOnly {
+						ps = append(ps, [2]int{m, q}, [2]int{m, q})
+					}
+				}
+			}
+			if len(ps) == 0 {
+				return false
+			}
+			pq := ps[r.Intn(len(ps))]
+			m, q := pq[0], pq[1]
+			ms := &mods[m]
+			tg := ms.impGHolder(q)
+			exp := ms.ImpG[q][0]
+			add("ind", m, tg, 0)
+			var copies [][2]int
+			if td, ok := mutOf(m); ok && td != tg && r.Intn(4) != 0 {
+				k := r.Intn(4)
+				if td >= ms.nTab() {
+					k = 0
+				}
+				add("cp", m, tg, 0, td, k)
+				copies = append(copies, [2]int{td, k})
+			}
+			if len(ms.ImpS) > 0 && r.Intn(2) == 0 {
+				add("gp", m, tg, r.Intn(len(ms.ImpS)), r.Intn(4))
+			}
+			for _, e := range ms.GElems {
+				if e[2] == q {
+					copies = append(copies, [2]int{e[0], e[1]})
+				}
+			}
+			// the chain of exporters behind a re-exported value goes as well, now and then
+			closeAll(exp)
+			if x := mods[exp].ExpG[ms.ImpG[q][1]]; x[1] <= -2 && r.Intn(2) == 0 {
+				closeAll(mods[exp].ImpG[-2-x[1]][0])
+			}
+			if r.Intn(4) != 0 {
+				xc(1 + r.Intn(3))
+				add("gc")
+			}
+			add("ind", m, tg, 0)
+			for _, c := range copies {
+				add("ind", m, c[0], c[1])
+			}
+			if r.Intn(2) == 0 {
+				add("gc")
+				add("ind", m, tg, 0)
+			}
+			return true
+		}
+		if r.Intn(3) != 0 {
+			globalScenario()
+		}
 		for sc := 1 + r.Intn(2); sc > 0; sc-- {
 			switch r.Intn(4) {
 			case 0: // F08 pattern around a store-by-parameter import
@@ -623,8 +785,8 @@ func generate(seed uint64, n int) {
 					add("call", m, q)
 					closeAll(mods[m].ImpF[q][0])
 					add("call", m, q)
-					if mods[m].nHold() > 0 {
-						t, k := r.Intn(mods[m].nHold()), r.Intn(4)
+					if t, ok := mutOf(m); ok {
+						k := r.Intn(4)
 						add("set", m, t, k, q)
 						add("ind", m, t, k)
 					}
@@ -681,6 +843,10 @@ func generate(seed uint64, n int) {
 					add("leaver", m, pickRec(r, ms))
 				}
 			case x < 6 && rtOpen:
+				if r.Intn(3) == 0 {
+					xc(1 + r.Intn(4))
+					break
+				}
 				m := r.Intn(nm)
 				if !compiled[m] && engOpen && r.Intn(2) == 0 {
 					add("compile", m)
@@ -701,17 +867,92 @@ func generate(seed uint64, n int) {
 		_ = i
 		out.Emit(h)
 	}
+	for _, h := range FixedGlobals(n + 40) {
+		out.Emit(h)
+	}
 	for _, h := range FixedMem(n + 20) {
 		out.Emit(h)
 	}
 	out.Emit(Witness(n, true, false))
 	out.Emit(Witness(n+1, false, false))
 	out.Emit(Witness(n+2, true, true))
+	for i, h := range FixedGlobals(n + 60)[:2] {
+		// the first two fixed histories once more, uncut on every engine: on the interpreter GlobalInstance.Me is nil
+		h.Witness, h.NoChurn = "GIMM", i == 1
+		out.Emit(h)
+	}
 	out.Emit(History{ID: n + 3, Cached: true, Cut: -1, Witness: "F08b", Probe: "global"})
 	out.Emit(History{ID: n + 4, Cached: true, Cut: -1, Witness: "F08b", Probe: "global", NoChurn: true})
 	out.Emit(History{ID: n + 5, Cached: false, Cut: -1, Witness: "MEMFREE", Probe: "alloc-importer", NoChurn: true})
 	out.Emit(History{ID: n + 6, Cached: true, Cut: -1, Witness: "MEMFREE", Probe: "alloc-definer", NoChurn: true})
 	out.Emit(History{ID: n + 7, Cached: false, Cut: -1, Witness: "MEMFREE", Probe: "alloc-ctxclose", NoChurn: true})
+}
+
+// FixedGlobals: the importer M of a funcref global imports NOTHING else from the exporter A. M reads the global
+// (call_indirect through it), copies it into its table (table.set (global.get g)), an element item `global.get g` fills
+// another slot at instantiation, a private mutable global is initialised with `global.get g`. A and its compiled module
+// are closed, every handle dropped, ONE MORE unrelated module is compiled and instantiated on the same engine (a compiled
+// module that was closed can stay referenced from a vacated slot of the engine's sorted list until the next compilation
+// overwrites it), collect, and M uses the global and every copy, twice.
+// Tracked iff the global object points to its exporter's module engine (GlobalInstance.Me): the model decides per engine.
+func FixedGlobals(id int) []History {
+	var hs []History
+	mk := func(cached bool, mods []ModSpec, ops ...[]Op) {
+		var l []Op
+		for _, o := range ops {
+			l = append(l, o...)
+		}
+		hs = append(hs, History{ID: id + len(hs), Cached: cached, Cut: -1, Mods: mods, Ops: l})
+	}
+	setup := func(n int) []Op {
+		var l []Op
+		for m := 0; m < n; m++ {
+			l = append(l, Op{"compile", []int{m}}, Op{"inst", []int{m}})
+		}
+		return l
+	}
+	closeHard := func(m int) []Op {
+		return []Op{{"closemod", []int{m}}, {"closecm", []int{m}}, {"dropmod", []int{m}}, {"dropcm", []int{m}}}
+	}
+	// M: holder 0 = private table, 1 = private mutable global (initialised with global.get g), 2 = the imported global
+	a := ModSpec{NFun: 1, Size: 4, NoElem: true, ExpG: [][2]int{{0, 0}}}
+	m := ModSpec{NFun: 1, NPriv: 1, NGlob: 1, Size: 4, GOnly: true, ImpG: [][2]int{{0, 0}}, GElems: [][3]int{{0, 1, 0}, {1, 0, 0}}}
+	uses := []Op{{"ind", []int{1, 2, 0}}, {"ind", []int{1, 0, 0}}, {"ind", []int{1, 0, 1}}, {"ind", []int{1, 1, 0}}}
+	for v := 0; v < 4; v++ {
+		var tail []Op
+		switch v {
+		case 0, 1: // ONE more compile
+			tail = []Op{{"xc", []int{1, 0}}, {"gc", nil}}
+		case 2: // none
+			tail = []Op{{"gc", nil}}
+		case 3: // several
+			tail = []Op{{"xc", []int{4, 0}}, {"gc", nil}}
+		}
+		mk(v != 1, []ModSpec{a, m}, setup(2), []Op{{"cp", []int{1, 2, 0, 0, 0}}}, uses, closeHard(0), tail, uses, []Op{{"gc", nil}}, uses)
+	}
+	// a MUTABLE exported global initialised with ref.func, written by nobody: the same
+	am := ModSpec{NFun: 1, Size: 4, NoElem: true, ExpG: [][2]int{{1, 0}}}
+	mm := ModSpec{NFun: 1, NPriv: 1, Size: 4, GOnly: true, ImpG: [][2]int{{0, 0}}}
+	usesM := []Op{{"ind", []int{1, 1, 0}}, {"ind", []int{1, 0, 0}}}
+	mk(true, []ModSpec{am, mm}, setup(2), []Op{{"cp", []int{1, 1, 0, 0, 0}}}, usesM, closeHard(0), []Op{{"xc", []int{1, 0}}, {"gc", nil}}, usesM, []Op{{"gc", nil}}, usesM)
+	// a chain: A exports g; B imports g (only) and exports g' = global.get g; M imports g' (only). A and B go.
+	b := ModSpec{NFun: 1, NPriv: 1, Size: 4, GOnly: true, ImpG: [][2]int{{0, 0}}, ExpG: [][2]int{{0, -2}}}
+	mc := ModSpec{NFun: 1, NPriv: 1, Size: 4, GOnly: true, ImpG: [][2]int{{1, 0}}, GElems: [][3]int{{0, 1, 0}}}
+	usesC := []Op{{"ind", []int{2, 1, 0}}, {"ind", []int{2, 0, 1}}}
+	for v := 0; v < 2; v++ {
+		cl := closeHard(0)
+		if v == 1 {
+			cl = append(closeHard(1), closeHard(0)...)
+		}
+		mk(v == 0, []ModSpec{a, b, mc}, setup(3), usesC, cl, []Op{{"xc", []int{2, 0}}, {"gc", nil}}, usesC, []Op{{"gc", nil}}, usesC)
+	}
+	// the importer hands the value on to a third instance C (which imports nothing) through C's store function: the F08
+	// channel, with a reference the sender did not define
+	cpriv := ModSpec{NFun: 1, NPriv: 1, Size: 4, NoElem: true}
+	mp := ModSpec{NFun: 1, NPriv: 1, Size: 4, ImpS: [][2]int{{1, 0}}, ImpG: [][2]int{{0, 0}}}
+	mk(true, []ModSpec{a, cpriv, mp}, setup(3), []Op{{"gp", []int{2, 1, 0, 2}}, {"ind", []int{1, 0, 2}}}, closeHard(0), closeHard(2),
+		[]Op{{"xc", []int{1, 0}}, {"gc", nil}, {"ind", []int{1, 0, 2}}})
+	return hs
 }
 
 // FixedShared: the run-time store into an imported SHARED table by an importer WITHOUT any element section (its
